@@ -170,6 +170,10 @@ class Bridge(object):
             return cb
         if hasattr(v, '__kvc_native__'):
             return v.__kvc_native__(self)
+        if type(v).__module__.startswith('contracts') and not callable(v):
+            px = NativeProxy(v, self)
+            self.to_n[id(v)] = px
+            return px
         if callable(v):
             br = self
 
@@ -226,7 +230,7 @@ class Bridge(object):
         """after a native call: reflect in-place mutations of arrays and objects in the engine values"""
         import numpy as np
         for a, n, before in list(self.arrs):
-            if n.shape == before.shape and np.array_equal(n, before, equal_nan=True):
+            if n.shape == before.shape and (np.array_equal(n, before, equal_nan=True) if n.dtype.kind in 'fc' else np.array_equal(n, before)):
                 continue          # untouched by the real code: keep the engine's (total) element function
             new = nd_to_arr(n)
             a.shape = new.shape
@@ -244,6 +248,27 @@ class Bridge(object):
 
 
 _MISSING = object()
+
+
+class NativeProxy(object):
+    """a contract-side stub object seen from the real code: attributes are converted to native values on access,
+    method arguments / results are converted both ways, attribute stores go back to the stub as engine values"""
+    def __init__(self, obj, bridge):
+        object.__setattr__(self, '_o', obj)
+        object.__setattr__(self, '_b', bridge)
+
+    def __getattr__(self, name):
+        o, b = object.__getattribute__(self, '_o'), object.__getattribute__(self, '_b')
+        v = getattr(o, name)
+        if callable(v) and not isinstance(v, (Obj, Cls)):
+            def call(*a, **k):
+                return b.native(v(*[b.engine(x) for x in a], **{kk: b.engine(x) for kk, x in k.items()}))
+            return call
+        return b.native(v)
+
+    def __setattr__(self, name, value):
+        o, b = object.__getattribute__(self, '_o'), object.__getattribute__(self, '_b')
+        setattr(o, name, b.engine(value))
 
 
 class NonFinite(object):
